@@ -143,7 +143,15 @@ fn embedded_uri<const OP: u8, const N: usize, const M: usize>() {
     forget(x);
 }
 
-// @h prop=C10,C04 tier=quick kind=check timeout=2400 mem=16 bound="UriRefBuf text <= 5 bytes, segment <= 2 bytes" encodes="RiRefBufImpl::path_mut;PathMutImpl::{new,push,first_segment_offset};utils::{replace,allocate_range};Deref for PathMut"
+// @h prop=C10,C04 tier=quick kind=check timeout=2400 mem=16 bound="UriRefBuf text <= 4 bytes, segment <= 2 bytes" encodes="RiRefBufImpl::path_mut;PathMutImpl::{new,push,first_segment_offset};utils::{replace,allocate_range};Deref for PathMut"
+#[cfg_attr(kani, kani::proof)]
+#[cfg_attr(kani, kani::unwind(11))]
+#[cfg_attr(kani, kani::stub(std::vec::Vec::resize, crate::stubs::vec_resize))]
+pub fn c10_embedded_push_n4() {
+    embedded_uri::<PUSH, 4, 2>()
+}
+
+// @h prop=C10,C04 tier=thorough kind=check timeout=2400 mem=16 bound="UriRefBuf text <= 5 bytes, segment <= 2 bytes" encodes="RiRefBufImpl::path_mut;PathMutImpl::{new,push,first_segment_offset};utils::{replace,allocate_range};Deref for PathMut"
 #[cfg_attr(kani, kani::proof)]
 #[cfg_attr(kani, kani::unwind(12))]
 #[cfg_attr(kani, kani::stub(std::vec::Vec::resize, crate::stubs::vec_resize))]
@@ -159,7 +167,15 @@ pub fn c10_embedded_push_n6() {
     embedded_uri::<PUSH, 6, 2>()
 }
 
-// @h prop=C10,C04 tier=quick kind=check timeout=2400 mem=16 bound="UriRefBuf text <= 5 bytes" encodes="PathMutImpl::{pop,push};PathImpl::last;utils::replace"
+// @h prop=C10,C04 tier=quick kind=check timeout=2400 mem=16 bound="UriRefBuf text <= 4 bytes" encodes="PathMutImpl::{pop,push};PathImpl::last;utils::replace"
+#[cfg_attr(kani, kani::proof)]
+#[cfg_attr(kani, kani::unwind(9))]
+#[cfg_attr(kani, kani::stub(std::vec::Vec::resize, crate::stubs::vec_resize))]
+pub fn c10_embedded_pop_n4() {
+    embedded_uri::<POP, 4, 0>()
+}
+
+// @h prop=C10,C04 tier=thorough kind=check timeout=2400 mem=16 bound="UriRefBuf text <= 5 bytes" encodes="PathMutImpl::{pop,push};PathImpl::last;utils::replace"
 #[cfg_attr(kani, kani::proof)]
 #[cfg_attr(kani, kani::unwind(12))]
 #[cfg_attr(kani, kani::stub(std::vec::Vec::resize, crate::stubs::vec_resize))]
@@ -175,7 +191,15 @@ pub fn c10_embedded_pop_n6() {
     embedded_uri::<POP, 6, 0>()
 }
 
-// @h prop=C10,C04:thorough tier=quick kind=check timeout=2400 mem=16 bound="UriRefBuf text <= 6 bytes" encodes="PathMutImpl::clear;utils::replace"
+// @h prop=C10,C04:thorough tier=quick kind=check timeout=2400 mem=16 bound="UriRefBuf text <= 5 bytes" encodes="PathMutImpl::clear;utils::replace"
+#[cfg_attr(kani, kani::proof)]
+#[cfg_attr(kani, kani::unwind(10))]
+#[cfg_attr(kani, kani::stub(std::vec::Vec::resize, crate::stubs::vec_resize))]
+pub fn c10_embedded_clear_n5() {
+    embedded_uri::<CLEAR, 5, 0>()
+}
+
+// @h prop=C10,C04 tier=thorough kind=check timeout=2400 mem=16 bound="UriRefBuf text <= 6 bytes" encodes="PathMutImpl::clear;utils::replace"
 #[cfg_attr(kani, kani::proof)]
 #[cfg_attr(kani, kani::unwind(12))]
 #[cfg_attr(kani, kani::stub(std::vec::Vec::resize, crate::stubs::vec_resize))]
@@ -191,7 +215,15 @@ pub fn c10_embedded_clear_n7() {
     embedded_uri::<CLEAR, 7, 0>()
 }
 
-// @h prop=C10,C04:thorough tier=quick kind=check timeout=3000 mem=26 bound="UriRefBuf text <= 5 bytes, segment <= 2 bytes (incl. '.', '..')" encodes="uri::PathMut::symbolic_push;PathMutImpl::{symbolic_push,pop,push}"
+// @h prop=C10,C04:thorough tier=quick kind=check timeout=3000 mem=26 bound="UriRefBuf text <= 4 bytes, segment <= 2 bytes (incl. '.', '..')" encodes="uri::PathMut::symbolic_push;PathMutImpl::{symbolic_push,pop,push}"
+#[cfg_attr(kani, kani::proof)]
+#[cfg_attr(kani, kani::unwind(11))]
+#[cfg_attr(kani, kani::stub(std::vec::Vec::resize, crate::stubs::vec_resize))]
+pub fn c10_embedded_symbolic_push_n4() {
+    embedded_uri::<SYMBOLIC_PUSH, 4, 2>()
+}
+
+// @h prop=C10,C04 tier=thorough kind=check timeout=3000 mem=26 bound="UriRefBuf text <= 5 bytes, segment <= 2 bytes (incl. '.', '..')" encodes="uri::PathMut::symbolic_push;PathMutImpl::{symbolic_push,pop,push}"
 #[cfg_attr(kani, kani::proof)]
 #[cfg_attr(kani, kani::unwind(12))]
 #[cfg_attr(kani, kani::stub(std::vec::Vec::resize, crate::stubs::vec_resize))]
@@ -277,7 +309,15 @@ fn standalone_uri<const OP: u8, const N: usize, const M: usize>() {
     forget(x);
 }
 
-// @h prop=C10,C04:thorough tier=quick kind=check timeout=2400 mem=16 bound="uri::PathBuf text <= 5 bytes, segment <= 2 bytes" encodes="uri::PathBuf::push;PathMutImpl::{from_path,push}"
+// @h prop=C10,C04:thorough tier=quick kind=check timeout=2400 mem=16 bound="uri::PathBuf text <= 4 bytes, segment <= 2 bytes" encodes="uri::PathBuf::push;PathMutImpl::{from_path,push}"
+#[cfg_attr(kani, kani::proof)]
+#[cfg_attr(kani, kani::unwind(11))]
+#[cfg_attr(kani, kani::stub(std::vec::Vec::resize, crate::stubs::vec_resize))]
+pub fn c10_pathbuf_push_n4() {
+    standalone_uri::<PUSH, 4, 2>()
+}
+
+// @h prop=C10,C04 tier=thorough kind=check timeout=2400 mem=16 bound="uri::PathBuf text <= 5 bytes, segment <= 2 bytes" encodes="uri::PathBuf::push;PathMutImpl::{from_path,push}"
 #[cfg_attr(kani, kani::proof)]
 #[cfg_attr(kani, kani::unwind(12))]
 #[cfg_attr(kani, kani::stub(std::vec::Vec::resize, crate::stubs::vec_resize))]
@@ -293,7 +333,15 @@ pub fn c10_pathbuf_push_n6() {
     standalone_uri::<PUSH, 6, 2>()
 }
 
-// @h prop=C10,C04:thorough tier=quick kind=check timeout=2400 mem=16 bound="uri::PathBuf text <= 5 bytes" encodes="uri::PathBuf::pop;PathMutImpl::pop"
+// @h prop=C10,C04:thorough tier=quick kind=check timeout=2400 mem=16 bound="uri::PathBuf text <= 4 bytes" encodes="uri::PathBuf::pop;PathMutImpl::pop"
+#[cfg_attr(kani, kani::proof)]
+#[cfg_attr(kani, kani::unwind(9))]
+#[cfg_attr(kani, kani::stub(std::vec::Vec::resize, crate::stubs::vec_resize))]
+pub fn c10_pathbuf_pop_n4() {
+    standalone_uri::<POP, 4, 0>()
+}
+
+// @h prop=C10,C04 tier=thorough kind=check timeout=2400 mem=16 bound="uri::PathBuf text <= 5 bytes" encodes="uri::PathBuf::pop;PathMutImpl::pop"
 #[cfg_attr(kani, kani::proof)]
 #[cfg_attr(kani, kani::unwind(12))]
 #[cfg_attr(kani, kani::stub(std::vec::Vec::resize, crate::stubs::vec_resize))]
